@@ -61,6 +61,12 @@ class Streams:
 
 
 def jdump(obj: Any) -> str:
+    """Transport / storage form.  Key order is kept: the order of the keys of a detection map or of a
+    field mapping is part of a scenario (a key-sorted copy is a different scenario and need not replay)."""
+    return json.dumps(obj, sort_keys=False, ensure_ascii=True, default=_json_default)
+
+
+def jdump_sorted(obj: Any) -> str:
     return json.dumps(obj, sort_keys=True, ensure_ascii=True, default=_json_default)
 
 
@@ -73,7 +79,7 @@ def _json_default(o: Any) -> Any:
 
 
 def digest(obj: Any) -> str:
-    return hashlib.sha256(jdump(obj).encode()).hexdigest()[:16]
+    return hashlib.sha256(jdump(obj).encode()).hexdigest()[:16]  # order-preserving, like the scenario itself
 
 
 # ------------------------------------------------------------------------------------------------
